@@ -547,10 +547,17 @@ func (ea *functionAnalysisState) transferFunction(instruction ssa.Instruction, g
 		if IsEscapeTracked(instr.AssertedType) {
 			src := nodes.ValueNode(instr.X)
 			for e := range g.Pointees(src) {
+				tp, ok := g.nodes.globalNodes.types[e]
+				if assertedObj := NillableDerefType(instr.AssertedType); ok && IsAbstractType(tp) && !IsAbstractType(assertedObj) {
+					// The object is only known by an abstract (interface) type, e.g. it was loaded from memory that
+					// another function or goroutine wrote: its implementation of the asserted concrete type is a subnode.
+					g.AddEdge(dest, g.ImplementationSubnode(e, assertedObj), EdgeInternal)
+					continue
+				}
 				// propogate untyped nodes or nodes that have a type that matches. We use
 				// AddressOfType, because if the node has type e.g. struct or impl of map, we need
 				// to allow assignment to asserted types *struct or map.
-				if tp, ok := g.nodes.globalNodes.types[e]; !ok || types.AssignableTo(AddressOfType(tp), instr.AssertedType) {
+				if !ok || types.AssignableTo(AddressOfType(tp), instr.AssertedType) {
 					g.AddEdge(dest, e, EdgeInternal)
 				}
 			}
